@@ -158,6 +158,10 @@ def _check_reader(case, ctx, sr, spec, D, nc, ns, nsync):
             else:
                 f = lambda: sr.read_samples(n.start, n.stop, channels=c if op.get("c") else None)[0]  # noqa
         kind = "C01.values"
+        if op["n"]["t"].startswith("npint"):
+            ctx.label("npint_sample_selector")
+        if op["n"]["t"] in ("int", "npint", "npint32") and exp_err is not None:
+            ctx.label("oob_int_sample_selector")
         if case["cbin"] and _neg_step(op["n"]):
             kind = "C01.values.cbin_negstep"
             ctx.label("cbin_negstep_selector")
